@@ -936,6 +936,22 @@ def run(ctx):
                    "the model's geometric oracles cin / sm are the library's find_lanelet_by_position / "
                    "find_lanelet_by_shape (property C06); shapely for the brute-force oracle",
                    "harness/props/c07.py (generators, brute-force oracle, Coq term printer)"]
+    ctx.trusted.insert(3, "harness/props/c07_src.py: symbolic walk over the syntax trees of Scenario._add_static_obstacle_to_lanelets / "
+                          "_remove_static_obstacle_from_lanelets / _add_dynamic_obstacle_to_lanelets / "
+                          "_remove_dynamic_obstacle_from_lanelets (normal form of vlib/astnorm.py) down to the registry add / discard "
+                          "statements, written as the table coq/Gen/Src_assign.v on every run (fail-closed); "
+                          "C07_registry_helpers_are_source proves the table, interpreted (Model/AssignSrc.v), equal to the four "
+                          "functions of Model/Assign.v; trusted: the walk and its reading of the accepted shapes; "
+                          "assign_obstacles_to_lanelets, add_objects, remove_obstacle and the reader-side assignment are tied by "
+                          "correspondence only")
+    from props import c07_src
+    try:
+        changed = c07_src.generate()
+        ctx.notes.append(f"Gen/Src_assign.v regenerated from the source ({'changed' if changed else 'unchanged'})")
+    except Exception as e:   # SourceShapeError, SyntaxError, OSError: the model is no longer shown to be the source
+        ctx.proof_breaks.append({"theorem": "source parser:Gen/Src_assign.v (C07_registry_helpers_are_source)",
+                                 "where": "harness/props/c07_src.py", "log": str(e)})
+        ctx.log(f"proof_broken theorem=C07_registry_helpers_are_source (source parser: {e})")
     ctx.build_props(extra_targets=["Corr/C07.vo"])
     if ctx.tier == "thorough":
         ctx.coqchk()
